@@ -146,12 +146,19 @@ def forwarding(ctx, rows):
 def registry(ctx):
     thorough = ctx.tier == "thorough"
     # (3 getters with a 2-operation mutator is 1.9e7 states / 10 min: the thorough tier splits it)
-    for ng, mm in ([(3, 1), (2, 2)] if thorough else [(2, 1)]):
-        ctx.mc("Router", "RouterMC.cfg", consts={"NGetters": ng, "MaxMut": mm, "Recheck": "TRUE"}, workers=vf.NCPU, timeout=3000)
+    # (getters, mutator program length, mutator processes)
+    for ng, mm, nmut in ([(3, 1, 1), (2, 2, 1), (2, 1, 2)] if thorough else [(2, 1, 1), (1, 1, 2)]):
+        ctx.mc("Router", "RouterMC.cfg", consts={"NGetters": ng, "MaxMut": mm, "Recheck": "TRUE", "NMutators": nmut},
+               workers=vf.NCPU, timeout=3000)
     # the model has teeth: without the second look under the lock TLC must find two committed clients
     neg = ctx.tlc("Router", "RouterNeg.cfg", consts={"NGetters": 2, "MaxMut": 0}, workers=4, timeout=600)
     if "SingleCommit" not in neg.violated:
         raise vf.Inconclusive("Router.tla with Recheck = FALSE does not violate SingleCommit: the invariant is vacuous\n" + neg.out[-2000:])
+    # ... and Remove must look up and delete in one critical section: with an unlocked pre-check two overlapping
+    # Removes report a removal that never happened
+    neg = ctx.tlc("Router", "RouterNegRemove.cfg", workers=4, timeout=600)
+    if "EveryReportIsATransition" not in neg.violated:
+        raise vf.Inconclusive("Router.tla with Precheck = TRUE does not violate EveryReportIsATransition\n" + neg.out[-2000:])
     gen = ctx.tlc("Router", "RouterGen.cfg", consts={"NCases": 6000 if thorough else 400}, workers=4, timeout=1800)
     cases = gen.cases()
     if len(cases) < 100:
@@ -161,9 +168,17 @@ def registry(ctx):
     ctx.run_harness(["registry", "-cases", cpath, "-out", opath], cmd=CMD, timeout=1800)
     spath = ctx.path("stress-obs.ndjson")
     ctx.run_harness(["stress", "-out", spath, "-iters", "200000" if thorough else "20000"], cmd=CMD, timeout=1800)
-    st = {"reg": 0, "stress": 0, "binds": set(), "second_look": 0, "several": 0, "samples": []}
+    rpath = ctx.path("rmstress-obs.ndjson")
+    ctx.run_harness(["rmstress", "-out", rpath, "-iters", "1000000" if thorough else "150000"], cmd=CMD, timeout=1800)
+    st = {"rmrounds": 0, "rmoutcomes": 0, "reg": 0, "stress": 0, "binds": set(), "second_look": 0, "several": 0, "samples": []}
 
     def on_obs(o):
+        if o["kind"] == "rmstress":
+            st["rmrounds"] += o["count"]
+            st["rmoutcomes"] += 1
+            ctx.count(o["count"] - 1)
+            ctx.distinct(("rmstress", o["n"], o["got"], o["chg"]))
+            return
         if o["kind"] == "stress":
             st["stress"] += 1
             if o["faccalls"] > 1:
@@ -183,7 +198,11 @@ def registry(ctx):
 
     def on_bad(o, fails):
         for clause in fails:
-            if o["kind"] == "stress":
+            if o["kind"] == "rmstress":
+                ctx.violation("C12/registry/raw/%s" % clause.replace(":", "/"),
+                              "%d concurrent Removes of a present name (%d of the rounds): clause '%s' false on what the real "
+                              "router did" % (o["n"], o["count"], clause), o)
+            elif o["kind"] == "stress":
                 ctx.violation("C12/registry/raw/%s/%s" % (clause.replace(":", "/"), "barrier" if o["barrier"] else "free"),
                               "%d concurrent first Gets of a new name: clause '%s' false on what the real router did" % (o["n"], clause), o)
             else:
@@ -191,15 +210,16 @@ def registry(ctx):
                               "case %d step %d (%s %s by process %d on %s): clause '%s' false on what the real router did" %
                               (o["case"], o["k"], o["op"]["op"], o["op"]["n"], o["p"], o["bind"], clause), o)
 
-    _trace(ctx, "RouterTrace", "RouterTrace.cfg", [opath, spath], "registry", on_obs, on_bad)
+    _trace(ctx, "RouterTrace", "RouterTrace.cfg", [rpath, opath, spath], "registry", on_obs, on_bad)
     for o in st["samples"]:
         ctx.sample(o)
     ncase = len(cases) * 2
-    ctx.cov["traces_validated_against_impl"] += ncase + st["stress"]
+    ctx.cov["traces_validated_against_impl"] += ncase + st["stress"] + st["rmrounds"]
     ctx.cov["registry"] = {"cases": len(cases), "runs": ncase, "steps": st["reg"],
-                           "cases_by_mode": {m: sum(1 for c in cases if c["mode"] == m) for m in ("seq", "conc", "race")},
+                           "cases_by_mode": {m: sum(1 for c in cases if c["mode"] == m) for m in ("seq", "conc", "race", "rmrace")},
                            "generated_routers_used_through_typed_accessors": len(st["binds"]) - 1,
                            "steps_where_the_second_look_found_another_client": st["second_look"],
+                           "concurrent_remove_rounds": st["rmrounds"], "concurrent_remove_distinct_outcomes": st["rmoutcomes"],
                            "stress_iterations": st["stress"],
                            "stress_iterations_with_several_factory_calls": st["several"]}
 
